@@ -101,6 +101,11 @@ def tree_step(leaf, value, structure=None):
 
 
 CORPUS = [
+    # a union leaf type whose first alternative fails at the shape stage (its roll-back replaces the live dictionaries) and whose
+    # second alternative then binds a NEW name: the accepted tree's bindings are part of the context afterwards
+    S(tree_step(["union", [["arr", "Float", "a"], ["arr", "Float", "a b"]]], ["t", [["a", [3, 4], "float32"]]]), {"kind": "arr", "dim": "b", "shape": [5]}),
+    S(tree_step(["union", [["arr", "Float", "a b"], ["arr", "Float", "b"]]], ["l", [["a", [3], "float32"], ["a", [2, 3], "float32"]]]), {"kind": "arr", "dim": "a", "shape": [9]}),
+    S({"kind": "arr", "dim": "c", "shape": [4]}, tree_step(["pytree", ["union", [["arr", "Float", "a"], ["arr", "Float", "a b"]]], None], ["d", {"x": ["a", [2, 3], "float32"], "y": ["a", [2], "float32"]}]), {"kind": "arr", "dim": "b", "shape": [3]}, {"kind": "arr", "dim": "b", "shape": [7]}),
     # a broadcastable variadic axis bound before the tree; one leaf widens it, a later leaf fails: the rejected tree must leave (1,4)
     S({"kind": "arr", "dim": "*#w", "shape": [1, 4]}, tree_step(["arr", "Float", "*#w"], ["t", [["a", [3, 4], "float32"], ["a", [2, 4], "float32"]]]), {"kind": "arr", "dim": "*#w", "shape": [2, 4]}),
     S({"kind": "arr", "dim": "*#w a", "shape": [1, 6, 2]}, tree_step(["pytree", ["arr", "Float", "*#w a"], None], ["l", [["a", [5, 6, 2], "float32"], ["i", 3]]]), {"kind": "arr", "dim": "*#w a", "shape": [4, 6, 2]}),
@@ -183,6 +188,10 @@ def main():
             nontriv.add(json.dumps(sess, sort_keys=True))
         if len(samples) < 4 and idx >= len(CORPUS) and idx % 11 == 0:
             samples.append({"session": sess, "impl": [x.get("verdict") for x in r["steps"]]})
+    # the statements the translator cut out of the source, run by CPython with scripted stand-ins, against their translation
+    # interpreted inside Coq (lib/storage_corr.py)
+    import storage_corr
+    R.coverage["source_fragment_cases"] = storage_corr.fragment_correspondence(R, ['pytreetail'], 600 if R.thorough else 60)
     if not proved:
         R.violation("proof", "proof obligations of props/C08.v no longer check: " + str(R.broken_proof)[-800:],
                     {"theorem_file": "coq/props/C08.v", "log": R.broken_proof}, no_input=not any(v["kind"] == "property" for v in R.violations))
